@@ -205,8 +205,15 @@ func (c *Ctx) checkCacheAfterStore() {
 		return writes
 	}
 	for _, fn := range c.P.ModFuncs {
-		if !core.InPkg(fn, "server") || !isPtrToNamedRecv(fn, "Topic") {
+		if !core.InPkg(fn, "server") {
 			continue
+		}
+		// a Topic method, or a helper / method of a request-scoped struct that a Topic method owns
+		if !isPtrToNamedRecv(fn, "Topic") {
+			owner := c.climbUntil(fn, func(R *ssa.Function) bool { return isPtrToNamedRecv(R, "Topic") })
+			if !isPtrToNamedRecv(owner, "Topic") {
+				continue
+			}
 		}
 		core.AllInstrs(fn, func(in ssa.Instruction) {
 			st, ok := in.(*ssa.Store)
